@@ -31,7 +31,7 @@ LEVEL_NOTE = ('All data on a path is concrete (transaction ids are real hashes a
               'only decides which choices and schedules exist; the deciding step is the exhaustive exploration of the decision tree by the '
               'symbolic VM, each path replayed natively.  Trusted: the interpreter, the scheduler (one task runs at a time, hand-over only '
               'at stub awaits), the synchronous stand-in for AIOSQLite (one connection, db.run = one SQL transaction), sqlite.  Claims and supports: two fixed four-transaction '
-              'histories (publish-update-abandon of an unsigned stream claim; own support, received tip, undecodable claim, unlock) over '
+              'histories (publish-update-abandon of an unsigned stream claim; own support, received tip, undecodable claim, claim without a known type, unlock) over '
               'every staging and notification order - the protobuf runtime is called natively on concrete claim bytes.  NOT covered: '
               'signed claims, channels, purchases, solver-chosen claim shapes, more than 100 transactions per address (batching), reorgs, several accounts, '
               'header/merkle verification (C08), real network errors and retries.')
@@ -360,6 +360,8 @@ def build_world(spec, addresses, change=(), amounts=None):
                     tx.add_outputs([Output.pay_claim_name_pubkey_hash(amount, 'name%d' % k, _stream_claim(k), pkh)])
                 elif kind == 'claim-undecodable':          # claim bytes that are no protobuf message: still a claim output
                     tx.add_outputs([Output(amount, OutputScript.pay_claim_name_pubkey_hash(b'junk', b'\xff\xfe\xfd', pkh))])
+                elif kind == 'claim-no-type':              # a payload that decodes but names no claim type this version knows (empty message)
+                    tx.add_outputs([Output(amount, OutputScript.pay_claim_name_pubkey_hash(b'future', b'\x00', pkh))])
                 elif kind == 'update':
                     tx.add_outputs([Output.pay_update_claim_pubkey_hash(amount, 'name%d' % k, '%02x' % (0xc0 + k) * 20, _stream_claim(k), pkh)])
                 else:
@@ -385,9 +387,9 @@ N_DEST = 3          # receiving addresses 0..2 may be paid; 2 lies beyond the in
 FOREIGN_KEY, FOREIGN_SCRIPT = N_DEST, N_DEST + 1
 CHANGE0 = N_DEST + 2      # the first address of the change chain (change gap 1)
 # value locked in claims and supports: destination code -> (script kind, wallet receiving address index)
-CLAIM_A0, SUPPORT_A1, CLAIM_BAD_A1, UPDATE_A0, SUPPORT_A0 = N_DEST + 3, N_DEST + 4, N_DEST + 5, N_DEST + 6, N_DEST + 7
+CLAIM_A0, SUPPORT_A1, CLAIM_BAD_A1, UPDATE_A0, SUPPORT_A0, CLAIM_EMPTY_A0 = N_DEST + 3, N_DEST + 4, N_DEST + 5, N_DEST + 6, N_DEST + 7, N_DEST + 8
 LOCKED_KINDS = {CLAIM_A0: ('claim', 0), SUPPORT_A1: ('support', 1), CLAIM_BAD_A1: ('claim-undecodable', 1), UPDATE_A0: ('update', 0),
-                SUPPORT_A0: ('support', 0)}
+                SUPPORT_A0: ('support', 0), CLAIM_EMPTY_A0: ('claim-no-type', 0)}
 
 
 def _stream_claim(k):
@@ -749,7 +751,7 @@ SHAPES = {
     # fund; publish a claim from it (claim to address 0, change to address 1); update the claim; abandon it (value back to address 1)
     'claim-update-abandon': [(-1, [0]), (0, [CLAIM_A0, 1]), (1, [UPDATE_A0]), (3, [1])],
     # fund; support somebody's claim from own funds (+ change); receive a tip from a stranger; an undecodable claim; unlock the own support
-    'support-tip-unlock': [(-1, [0]), (0, [SUPPORT_A1, 0]), (-1, [SUPPORT_A0, CLAIM_BAD_A1]), (1, [FOREIGN_KEY, 1])],
+    'support-tip-unlock': [(-1, [0]), (0, [SUPPORT_A1, 0]), (-1, [SUPPORT_A0, CLAIM_BAD_A1, CLAIM_EMPTY_A0]), (1, [FOREIGN_KEY, 1])],
 }
 
 
